@@ -192,6 +192,16 @@ def _vec_of_cols(world, rec, ctx):
     return e
 
 
+@op("csv", "construct")
+def _csv(world, rec, ctx):
+    """read_csv from an in-memory file object (C03 monitors the dtypes of the resulting columns)"""
+    import io
+    S = serif()
+    text = "\n".join(",".join(row) for row in rec["rows"]) + ("\n" if rec["rows"] else "")
+    res = S.read_csv(io.StringIO(text), has_header=bool(rec.get("header", True)))
+    return _bind_result(world, rec, res, "csv")
+
+
 @op("vnew", "construct")
 def _vnew(world, rec, ctx):
     S = serif()
